@@ -1079,3 +1079,41 @@ def completion_callback_pred(prog, conn_prefix):
                     return True
         return False
     return direct, via_helper
+
+
+def relation_edges(f, lhs_pred, rhs_pred, rels):
+    """[(block, k)]: edges on which  L <rel> R  holds (rel in rels; L, R satisfy the predicates on the extractor's operand refs; either
+    way round), the comparison being the branch condition itself or a bool local initialised from it (`const bool done = a == b; if (done)`)"""
+    out = []
+
+    def match(lhs, rel, rhs):
+        if lhs_pred(lhs) and rhs_pred(rhs) and rel in rels:
+            return True
+        return lhs_pred(rhs) and rhs_pred(lhs) and _SWAP[rel] in rels
+    boolvars = {}
+    for d in f.events("decl"):
+        if d.get("var") and (d.get("type") or "").replace("const ", "").strip() == "bool":
+            blk = f.blocks[d.block]
+            cmps = [x for x in blk.elems[:d.idx] if x["k"] == "cmp" and x.get("op") in _NEG and (x.get("t") or "").strip("() ") in ((d.get("init") or {}).get("t") or "")]
+            if cmps and not [a for a in f.events("assign") if (a.get("lhs") or {}).get("v") == d["var"]]:
+                boolvars[d["var"]] = cmps[-1]
+    for b in f.blocks.values():
+        t = b.term
+        if not t or len(b.succs) != 2:
+            continue
+        for k in (0, 1):
+            if b.succs[k] is None:
+                continue
+            r = rel_on_edge(t, k)
+            if r is not None:
+                if match(*r):
+                    out.append((b.id, k))
+                continue
+            v = (t.get("core") or {}).get("v")
+            if v in boolvars and not t.get("cmp"):
+                c = boolvars[v]
+                truth = (k == 0) != bool(t.get("neg"))
+                rel = c["op"] if truth else _NEG[c["op"]]
+                if match(c.get("lhs") or {}, rel, c.get("rhs") or {}):
+                    out.append((b.id, k))
+    return out
